@@ -1,7 +1,7 @@
 (* C13 — the emitted unit tests pass against the emitted library.  PARTIAL: proved here is that the sample request
    values the emitted REST tests are built from match the URI template they are substituted into (for every template
    and every counter state); that the 6k-line emitted suite passes is only exercised (DESIGN.md 6.13, 8, 10). *)
-From GV Require Import Base.Str Model.Mock Proofs.Mock.
+From GV Require Import Base.Str Model.Mock Proofs.Mock Model.Asserts Proofs.Asserts.
 
 Theorem C13_sample_matches_template : forall t k, matches t (fst (instantiate k t)) = true.
 Proof. exact sample_matches. Qed.
@@ -53,3 +53,19 @@ Example C13_mock_recursive_example :
   = Some (MVDict [("turtle", MVDict []); ("name", MVStr "name_value")], ["Turtle"]).
 Proof. exact mock_recursive_example. Qed.
 Print Assumptions C13_mock_recursive_example.
+
+(* ---- the response-field assertions of the emitted tests ----
+   For every scalar field shape the comparison form chosen by the ladder succeeds on a correct library. *)
+Theorem C13_assert_form_holds : forall ty repeated, In ty SCALAR_TYPES -> holds (assert_form ty repeated) ty repeated = true.
+Proof. exact assert_form_holds. Qed.
+Print Assumptions C13_assert_form_holds.
+
+Theorem C13_assert_form_is_iff : forall ty repeated, assert_form ty repeated = AIs <-> (ty = 8 /\ repeated = false).
+Proof. exact assert_form_is_iff. Qed.
+Print Assumptions C13_assert_form_is_iff.
+
+(* the guard on the bool arm is needed: without it a repeated bool field is compared by identity *)
+Theorem C13_assert_form_unguarded_bool_refuted :
+  exists ty repeated, In ty SCALAR_TYPES /\ holds (assert_form_unguarded_bool ty repeated) ty repeated = false.
+Proof. exact assert_form_unguarded_bool_refuted. Qed.
+Print Assumptions C13_assert_form_unguarded_bool_refuted.
